@@ -535,11 +535,20 @@ def run(prog, rep, tier='quick', config='default'):
     for fn, c in sites:
         mm = CD_RE.search(c.gargs[0])
         cn0 = mm.group(1) if mm else '?'
-        ordn[(fn.name, cn0)] = ordn.get((fn.name, cn0), 0) + 1
-        base = '%s|unwrap<%s>#%d' % (alias.get(fn.name, fn.name), cn0, ordn[(fn.name, cn0)])
         # the try_from whose result is unwrapped
         org = mir.provenance(fn, c.args[0], pass_through=RESULT_PASS)
         tf = [x for x in org.calls if x.short == 'try_from' and 'TryFrom' in x.decl]
+        # name the site by the operations that build the converted value (stable when another unwrap is added to the function)
+        label = ''
+        if tf:
+            o2 = mir.provenance(fn, tf[0].args[0])
+            ops = sorted({x.short for x in o2.calls if x.short not in ('deref', 'clone', 'into', 'from', 'try_from', 'unwrap', 'expect', 'branch',
+                                                                        'borrow', 'as_ref', 'copied', 'cloned', 'map', 'get', 'unwrap_or', 'index',
+                                                                        'from_output', 'deref_mut', 'new')} |
+                         {op for op, _ in o2.binops})
+            label = '@' + ','.join(ops[:3]) if ops else ''
+        ordn[(fn.name, cn0, label)] = ordn.get((fn.name, cn0, label), 0) + 1
+        base = '%s|unwrap<%s>%s#%d' % (alias.get(fn.name, fn.name), cn0, label, ordn[(fn.name, cn0, label)])
         if not tf:
             rep.violation('R5a', base, where=c.where(), fn=fn.name, detail='unwrap of a Result<ConstrainedDecimal> that is not produced by try_from (%s)'
                           % sorted(org.call_names())[:3])
